@@ -1,5 +1,5 @@
 From Coq Require Import Extraction ExtrOcamlBasic.
-From RV Require Import Base.Bytes Base.SortedMap Btree.Tree Btree.Read Btree.Inst Btree.Mutator Btree.Shape Btree.ShapeInst Btree.Guard Btree.ShapeGuard.
+From RV Require Import Base.Bytes Base.SortedMap Btree.Tree Btree.Read Btree.Inst Btree.Mutator Btree.Shape Btree.ShapeInst Btree.Guard Btree.ShapeGuard Btree.Scan Btree.ShapeScan.
 Extraction Language OCaml.
 Extraction "../ocaml/gen/c04_model.ml"
   SortedMap.get SortedMap.insert SortedMap.remove SortedMap.range SortedMap.bounds_empty
@@ -10,6 +10,9 @@ Extraction "../ocaml/gen/c04_model.ml"
   Bytes.le_decode Bytes.le_encode
   Shape.erase_tree Shape.s_commit Shape.s_insert Shape.s_delete Shape.s_pop_first Shape.s_pop_last
   Tree.abs_tree Shape.s_insert_tag Shape.s_delete_tag_list
+  ShapeScan.s_extract_new ShapeScan.s_extract_next ShapeScan.s_extract_close ShapeInst.entry_eqb
+  ShapeScan.s_retain_in ShapeScan.sb_leaves Scan.scan_retain_in ShapeScan.s_seek ShapeScan.s_flush ShapeScan.s_splice
+  ShapeScan.s_has_parent ShapeScan.s_more_children ShapeScan.s_underfilling ShapeScan.s_packs
   ShapeGuard.s_apply_gop ShapeGuard.s_get_mut ShapeGuard.s_guard_set ShapeGuard.s_guard_tag ShapeInst.m_apply_gop ShapeInst.blank_bytes
   Shape.s_oracle Shape.sempty Shape.order_for Shape.alloc_for
   ShapeInst.key_sep_left ShapeInst.key_sep_bytes ShapeInst.key_sep_str
